@@ -33,3 +33,36 @@ Proof. vm_compute. repeat split. Qed.
 
 Print Assumptions accept_ldpc_iff_limits.
 Print Assumptions accept_rs2m_iff_limits_holds_outside_class.
+
+(* Second half of the property: encoding, decoding and query calls.  ApiArgs.v mirrors the tests every API function
+   makes before it hands the call to a codec (NULL session, role, ESI range, the pointers it tests) plus the ESI test
+   of the codecs' build functions; the check runs a grid of such calls on the compiled C for every codec and role. *)
+From OFV Require Import ApiArgs ApiArgsProofs.
+
+(* a call reaches the codec exactly when it is inside the documented domain *)
+Theorem api_dispatch_iff_domain : forall (s : option ses) (c : call),
+  (forall ss, s = Some ss -> 0 <= s_k ss /\ 0 <= s_r ss /\ s_k ss + s_r ss < 2 ^ 32) ->
+  (api_verdict s c = VDispatch <-> in_domain s c).
+Proof. exact api_dispatch_iff_domain_proof. Qed.
+
+(* every other call reports an error (false for the completion query) ... *)
+Theorem api_refused_is_error : forall (s : option ses) (c : call),
+  api_verdict s c <> VDispatch ->
+  (c = CIsComplete /\ api_verdict s c = VFalse) \/ (c <> CIsComplete /\ status_of (api_verdict s c) <> 0).
+Proof. exact api_refused_is_error_proof. Qed.
+
+(* ... and returns before the codec is entered: whatever the codec's state type and step function, the state is unchanged *)
+Theorem api_refused_keeps_state : forall (St Out : Type) (dispatch : St -> call -> St * Out) (refused : verdict -> Out) info st c,
+  api_verdict info c <> VDispatch -> fst (api_step dispatch refused info st c) = st.
+Proof. intros. apply api_refused_keeps_state_proof. assumption. Qed.
+
+Example api_examples :
+  let d := Some {| s_role := RDec; s_codec := 3; s_k := 10; s_r := 6 |} in
+  let e := Some {| s_role := REnc; s_codec := 1; s_k := 10; s_r := 6 |} in
+  api_verdict d (CDecode false 15) = VDispatch /\ api_verdict d (CDecode false 16) = VFatal /\ api_verdict d (CBuild 10) = VFatal /\
+  api_verdict e (CBuild 9) = VError /\ api_verdict e (CBuild 10) = VDispatch /\ api_verdict e (CBuild 16) = VError /\
+  api_verdict e CFinish = VFatal /\ api_verdict None CIsComplete = VFalse /\ api_verdict d (CGetCtl 1024 false 1) = VDispatch.
+Proof. vm_compute. repeat split. Qed.
+
+Print Assumptions api_dispatch_iff_domain.
+Print Assumptions api_refused_is_error.
